@@ -16,6 +16,9 @@ for f in $(git diff --name-only --diff-filter=U | grep "^evidence/" | grep -v "e
 git checkout FETCH_HEAD -- evidence/$id.json 2>/dev/null || true
 git checkout HEAD -- harness/runner.py harness/obligations.py tools/mkmanifest.py tools/run_seeded.py 2>/dev/null || true
 python3 tools/mkmanifest.py
+# notes files: keep both sides of a conflict (drop the marker lines); anything else with markers stops the merge
+for f in $(git diff --name-only --diff-filter=U | grep "^design_notes/"); do sed -i -E "/^(<<<<<<< |>>>>>>> )/d; s/^=======$//" $f; done
+if grep -rlE "^(<<<<<<< |>>>>>>> )" --include=*.py --include=*.lean --include=*.json --include=*.md harness lean/NemoVerif tools known_findings.d design_notes 2>/dev/null | grep -q .; then echo "UNRESOLVED CONFLICT MARKERS"; exit 1; fi
 git add -A
 git status --short | grep -E "^(UU|AA|DU|UD)" && { echo "UNRESOLVED CONFLICTS"; exit 1; }
 git commit -q -m "Merge builder $id"
